@@ -62,6 +62,18 @@ def renderDb (file : List UInt8) (r : Option (Option (List RpmDb.Rope))) : Strin
   | some none => "err:headers"
   | some (some rs) => renderRopes file rs
 
+def renderHdrs (file : List UInt8) (hs : List RpmDb.Hdr) : String :=
+  let parts := hs.map fun h =>
+    let c := h.content file
+    if c.length == h.size then s!"{h.size}:{byteSum c}" else s!"{h.size}:short"
+  (s!"ok n={hs.length} " ++ " ".intercalate parts).trimRight
+
+def renderBdb (file : List UInt8) (r : Option (Option (List RpmDb.Hdr))) : String :=
+  match r with
+  | none => "err:parse"
+  | some none => "err:headers"
+  | some (some hs) => renderHdrs file hs
+
 def renderItem (i : DockerLex.Item) : String :=
   let v := Driver.hex (i.val.flatMap DockerLex.encode)
   match i.kind with
@@ -91,7 +103,7 @@ def stepLine (s : Unit) (l : String) : Unit × String :=
   | ["bdb", h] =>
     match Driver.unhex h with
     | none => (s, "bad-op")
-    | some bs => (s, renderDb bs (RpmDb.Bdb.allHeaders bs))
+    | some bs => (s, renderBdb bs (RpmDb.Bdb.allHeaders bs))
   | ["ndb", h] =>
     match Driver.unhex h with
     | none => (s, "bad-op")
